@@ -816,6 +816,96 @@ def r05_7(rep: Report) -> None:
         raise AnalysisError(f'only {n} returns of int-declared functions found')
 
 
+def r05_10(rep: Report) -> None:
+    """no AdaptationSet is empty because of a stale read: `mf.parse_media_file()` indexes a media file during the
+    request and REPLACES what `mf.representation` returns.  A local that was given `mf.representation` before
+    that call still holds the old value (None for a file that was not indexed) - testing or listing it afterwards
+    leaves the freshly indexed file out of the AdaptationSet.  May-analysis per function: a local assigned from
+    `<x>.representation` becomes stale at `<x>.parse_media_file(..)` (also `modify_media_file`, the
+    `representation` setter) and must not be read before it is assigned again."""
+    from ..flow import Flow, MayFacts
+    rid = 'R05.10'
+    mutators = ('parse_media_file', 'modify_media_file', 'set_representation')
+    n_calls = 0
+    for rel in rep.repo.py_files('dashlive/server'):
+        src = rep.repo.source(rel)
+        if not any(m_ + '(' in src for m_ in mutators):
+            continue
+        for cls_, fn in rep.repo.expanded_functions(rel):
+            calls = [c for c in ast.walk(fn) if isinstance(c, ast.Call) and isinstance(c.func, ast.Attribute)
+                     and c.func.attr in mutators and isinstance(c.func.value, ast.Name)]
+            if not calls:
+                continue
+            n_calls += len(calls)
+            construct = f'{rel}::{(cls_.name + ".") if cls_ else ""}{fn.name}'
+
+            def simple(st):
+                return not isinstance(st, (ast.If, ast.For, ast.While, ast.Try, ast.With))
+
+            def gen(st):
+                out = []
+                if isinstance(st, (ast.Assign, ast.AnnAssign)) and getattr(st, 'value', None) is not None:
+                    tg = st.targets[0] if isinstance(st, ast.Assign) else st.target
+                    v = st.value
+                    if isinstance(tg, ast.Name) and isinstance(v, ast.Attribute) and v.attr == 'representation' \
+                            and isinstance(v.value, ast.Name):
+                        out.append(('cap', tg.id, v.value.id))
+                return out
+
+            def kill(st, facts):
+                dead = []
+                stored = {x.id for x in ast.walk(st) if isinstance(x, ast.Name) and isinstance(x.ctx, ast.Store)} if simple(st) else set()
+                if isinstance(st, ast.For):
+                    stored = {x.id for x in ast.walk(st.target) if isinstance(x, ast.Name)}
+                for f in facts:
+                    if f[1] in stored or (f[0] == 'cap' and f[2] in stored):
+                        dead.append(f)
+                return dead
+
+            class D(MayFacts):
+                def transfer(self, stmt, s):
+                    s = super().transfer(stmt, s)
+                    if simple(stmt):
+                        for c in ast.walk(stmt):
+                            if isinstance(c, ast.Call) and isinstance(c.func, ast.Attribute) and c.func.attr in mutators \
+                                    and isinstance(c.func.value, ast.Name):
+                                s = s | frozenset(('stale', f[1], f[2]) for f in s if f[0] == 'cap' and f[2] == c.func.value.id)
+                    return s
+
+                def assume(self, test, s, truth):
+                    # `if x.parse_media_file():` - the call happens while the test is evaluated
+                    for c in ast.walk(test):
+                        if isinstance(c, ast.Call) and isinstance(c.func, ast.Attribute) and c.func.attr in mutators \
+                                and isinstance(c.func.value, ast.Name):
+                            s = s | frozenset(('stale', f[1], f[2]) for f in s if f[0] == 'cap' and f[2] == c.func.value.id)
+                    return s
+            hits: dict[str, ast.AST] = {}
+
+            def on_stmt(st, s):
+                reads = st.test if isinstance(st, (ast.If, ast.While)) else st.iter if isinstance(st, ast.For) else \
+                    st if simple(st) else None
+                if reads is None:
+                    return
+                for x in ast.walk(reads):
+                    if isinstance(x, ast.Name) and isinstance(x.ctx, ast.Load):
+                        for f in s:
+                            if f[0] == 'stale' and f[1] == x.id:
+                                hits.setdefault(f'{x.id} after {f[2]}.parse_media_file()', st)
+            Flow(D(gen, kill), on_stmt=on_stmt).run(fn, frozenset())
+            if hits:
+                for key, st in hits.items():
+                    name = key.split(' ', 1)[0]
+                    rep.fail(rid, construct, key,
+                             f'`{name}` was read from `.representation` before the media file was indexed and is used again at '
+                             f'`{norm(st)[:70]}` after the call that replaces it: a file indexed during this request still looks '
+                             'un-indexed (None) and is left out - an AdaptationSet without Representations on the first '
+                             'request after an upload', st)
+            else:
+                rep.ok(rid, construct, f'{len(calls)} indexing call(s)', 'no local holds the representation across the call')
+    if n_calls < 2:
+        raise AnalysisError(f'only {n_calls} indexing call(s) (parse_media_file) found under dashlive/server')
+
+
 def analyse(rep: Report) -> None:
     rep.explanation = (
         'Every manifest-side template (9 .mpd, the patch template and the 17 files they include) '
@@ -837,6 +927,7 @@ def analyse(rep: Report) -> None:
     rep.rule('R05.6', 'S entries are listed only with a duration (S@d is rendered without a guard)', floor=2)
     rep.rule('R05.7', 'functions declared to return int return no float-valued expression', floor=8)
     rep.rule('R05.8', 'the formatters behind isoDateTime / isoDuration keep the xs:dateTime / xs:duration lexical form (rules of C19)', floor=1)
+    rep.rule('R05.10', 'a representation read before a media file is indexed is not used after the indexing call', floor=2)
     rep.rule('R05.9', 'durations handed to isoDuration are non-negative (timeShiftBufferDepth: rules of C08)', floor=1)
     global _INDEX
     from ..index import Index
@@ -864,6 +955,7 @@ def analyse(rep: Report) -> None:
     r05_5(rep, ts, strength)
     r05_6(rep)
     r05_7(rep)
+    r05_10(rep)
     from .c19 import lift_into
     lift_into(rep, 'R05.8', ('R19.1', 'R19.3', 'R19.4', 'R19.5'), 'date-time and duration formatters')
     from ..core import lift
